@@ -168,10 +168,41 @@ def _unescape_calls(f, P):
     return out
 
 
+_unesc_cache = {}
+
+
+def _is_unescape_routine(prog, g):
+    """g(char *token) rewrites the token to its RFC 6901 decoding: evaluated on every token of up to 3 characters over ~ 0 1 / a"""
+    from itertools import product
+    if g is None or g.is_decl or len(g.params) != 1 or not g.params[0][0].endswith("*"):
+        return False
+    if g.name in _unesc_cache:
+        return _unesc_cache[g.name]
+    ok = True
+    try:
+        for ln in range(0, 4):
+            for tup in product(b"~01/a", repeat=ln):
+                tok = bytes(tup)
+                want = tok.replace(b"~1", b"/").replace(b"~0", b"~")
+                h = _UnescPE(prog, tok)
+                leaves = h.run(g, [("ptr", "token", ())], pe.State())
+                got = {h._cstr(lf.state, ("ptr", "token", ())) if lf.kind == "ret" else None for lf in leaves}
+                if got != {want}:
+                    ok = False
+                    break
+            if not ok:
+                break
+    except Exception:
+        ok = False
+    _unesc_cache[g.name] = ok
+    return ok
+
+
 def r3(chk, prog, m):
     rid = "C12.R3"
     chk.rule(rid, "every use of a reference token as an object member name (lookup or add) is preceded, on every path and on the "
-                  "same buffer, by the replacement of \"~1\" with '/' and then of \"~0\" with '~'")
+                  "same buffer, by the replacement of \"~1\" with '/' and then of \"~0\" with '~', in line or through a routine that "
+                  "is evaluated to be RFC 6901's decoding")
     n = 0
     for f in [g for g in m.functions.values() if not g.is_decl]:
         P = Paths(f, prog)
@@ -187,7 +218,12 @@ def r3(chk, prog, m):
             sig = "%s(%s, %s)" % (i.callee, P.path(i.ops[0]), key)
             first = [u for u in un if u[1] == "~1" and u[2] == 47 and u[3] == key and cfg.dominates(u[0], i)]
             second = [u for u in un if u[1] == "~0" and u[2] == 126 and u[3] == key and cfg.dominates(u[0], i)]
-            if first and second and cfg.dominates(first[0][0], second[0][0]):
+            routine = [u for u in f.instrs() if u.op == "call" and u.callee and u.callee != "string_replace_all_occurrences_with_char"
+                       and u.ops and u.ops[0].kind == "reg" and P.path(u.ops[0]) == key and cfg.dominates(u, i)
+                       and _is_unescape_routine(prog, prog.resolve(u.callee, f.module))]
+            if routine:
+                chk.proven(rid, f.name, sig, i.locstr(), "token passed through %s (evaluated: RFC 6901 decoding) before use as a member name" % routine[0].callee)
+            elif first and second and cfg.dominates(first[0][0], second[0][0]):
                 chk.proven(rid, f.name, sig, i.locstr(), "token unescaped (~1 -> '/', then ~0 -> '~') before use as a member name")
             elif first and second:
                 chk.refuted(rid, f.name, sig, i.locstr(),
